@@ -150,7 +150,9 @@ def subst(v, args):
     if k in ("Ranges", "Plurals"):
         st = v[2][0]
         f = absint.fields_of(st)
-        cnt = amap.get("var_count")
+        # (the count is a variable like any other: the argument *of its name* is the one that fixes or renames it - `count` unless an earlier
+        # reference renamed it; an argument named `count` means nothing to a plural whose count is called `n`)
+        cnt = amap.get(absint.fields_of(f["count_key"])["name"][1])
         new_key = f["count_key"]
         if cnt is not None:
             if cnt[1] == "Literal" and cnt[2][0][1] in ("Unsigned", "Signed"):
@@ -269,6 +271,10 @@ def populate_universe():
             for cl, c in counts:
                 out.append(("%s / %s" % (vl, cl), v, L(T(S("var_count"), c), T(S("var_x"), X))))
                 out.append(("%s / only %s" % (vl, cl), v, L(T(S("var_count"), c))))        # the count as the only argument
+            if vl == "plural-ordinal":
+                # a plural whose count was renamed (`n`) by an earlier reference: it is `n` that fixes / renames it now
+                for cl, c in counts[:4] + counts[8:9]:
+                    out.append(("%s / n:%s" % (vl, cl), v, L(T(S("var_n"), c), T(S("var_x"), X))))
     return out
 
 
@@ -377,8 +383,9 @@ def check_inner(ctx, r, rid="R0"):
                 log.append(("resolve", rv, lc[1] if lc[0] == "str" else lc))
                 return C("Ok", UNIT)
             def populate_b(rv, a):
-                # the real populate, observed: it must run after every nested reference was resolved
+                # the real populate, observed: it must run after every nested reference was resolved, and for the referencing locale
                 log.append(("populate",))
+                log.append(("populate-locale", a[2] if len(a) > 2 else None))
                 sub = evaluator()
                 g_ = sub.run_fn(pop_fn, [rv] + list(a))
                 if isinstance(g_, str):
@@ -430,8 +437,10 @@ def check_inner(ctx, r, rid="R0"):
                 continue
             want_cell = C("Set", want_val)
             res_log = [x for x in log if x[0] == "resolve"]
-            # the target and every argument are resolved first, in the locale the target was found in
-            want_res = [("resolve", eff_t, eff_loc)] + [("resolve", x[1][1], eff_loc) for x in av[1]]
+            # the target's own nested references are resolved in the locale the target was found in (it is that locale's text); the
+            # arguments' in the locale the reference is written in (they are part of that file), which is also the locale the result is
+            # built for (plural forms are chosen by its rules)
+            want_res = [("resolve", eff_t, eff_loc)] + [("resolve", x[1][1], loc) for x in av[1]]
             if got != C("Ok", UNIT) or _norm(stored) != _norm(want_cell):
                 bad += 1
                 r.viol("%s:resolve_foreign_key_inner#%s" % (rid, label), "a reference (%s, %s, locale %s; values per locale %s; inherits %s) gives %s and stores %s; the first locale of the chain that defines the target is %s: pure substitution stores %s"
@@ -441,7 +450,11 @@ def check_inner(ctx, r, rid="R0"):
                 r.viol("%s:resolve_foreign_key_inner#%s#order" % (rid, label), "the target is substituted before all nested references (of the target and of the arguments) were resolved: %s" % [x[0] for x in log], file=fn.file, line=fn.line)
             elif sorted(map(repr, res_log)) != sorted(map(repr, want_res)):
                 bad += 1
-                r.viol("%s:resolve_foreign_key_inner#%s#nested" % (rid, label), "before substituting, the nested references of the target and of the arguments must be resolved in the locale the target came from (%s): resolved %s" % (eff_loc, [(absint.fmt(x[1])[:60], x[2]) for x in res_log]), file=fn.file, line=fn.line)
+                r.viol("%s:resolve_foreign_key_inner#%s#nested" % (rid, label), "before substituting, the nested references of the target must be resolved in the locale the target came from (%s) and those of the arguments in the locale of the reference (%s): resolved %s" % (eff_loc, loc, [(absint.fmt(x[1])[:60], x[2]) for x in res_log]), file=fn.file, line=fn.line)
+            elif [x for x in log if x[0] == "populate-locale" and x[1] is not None and x[1] != S(loc) and absint.fields_of(x[1]).get("name", x[1]) != S(loc)]:
+                bad += 1
+                r.viol("%s:resolve_foreign_key_inner#%s#populate-locale" % (rid, label), "the target is substituted for locale %s; the reference is written in (and rendered for) %s: a literal count would pick the plural form by another locale's rules"
+                       % ([absint.fmt(x[1]) for x in log if x[0] == "populate-locale"], loc), file=fn.file, line=fn.line)
     if not bad:
         r.inst("ParsedValue::resolve_foreign_key_inner", "%d (target, arguments, locale, inherits) cases: missing / subkey / null-in-default targets rejected with the cell untouched; a null target takes the value of the first locale of its "
                "`inherits` chain that defines it (chains, cycles, self reference, absent links), else the default's; nested references of target and arguments resolved first in that locale; the cell receives the pure substitution; every walk terminates" % n)
